@@ -736,6 +736,14 @@ impl DtlsInner {
                             ctx.incomplete_msg_seq = msg.message_seq;
                         }
 
+                        if msg.fragment_offset as usize != ctx.incomplete_handshake.len()
+                            || msg.fragment_offset as usize + msg.body.len()
+                                > msg.total_length as usize
+                        {
+                            // Duplicate, overlapping or out-of-order fragment: drop it,
+                            // the peer retransmits the flight.
+                            continue;
+                        }
                         ctx.incomplete_handshake.extend_from_slice(&msg.body[..]);
 
                         if ctx.incomplete_handshake.len() < msg.total_length as usize {
